@@ -107,7 +107,7 @@ OP_PROPS = {
     'sp': 'C06 C16 C15 C10 C05', 'psp': 'C15 C16 C10 C06', 'host': 'C07 C10', 'idnahyp': 'C07',
     'ipv4': 'C11 C07', 'ends': 'C11 C07', 'ipv4ser': 'C11', 'ipv6': 'C12 C07', 'ipv6ser': 'C12',
     'penc': 'C14 C10', 'pencset': 'C14', 'pdec': 'C14 C10', 'utf': 'C10', 'cmp': 'C16 C10', 'member': 'C13',
-    'frompath': 'C17 C10', 'topath': 'C17', 'rt': 'C17',
+    'frompath': 'C17 C10', 'topath': 'C17', 'rt': 'C17', 'buf': 'C04 C18 C20', 'sv': 'C18 C04',
 }
 
 def is_failing_input_for(pid, kind, op=None):
